@@ -391,7 +391,9 @@ def predictCycle (fam : Char) (edges : Array Edge) (limit : Nat) (budget : Optio
   let m0 : Marks := ⟨s0.cur.depth, nativeDepth s0⟩
   match runMarks s0 m0 (entryEvents fam) with
   | .error p => p
-  | .ok (s1, m1) => cycle fam edges budget (limit + (budget.getD 0) + 3) 0 s1 m1
+  | .ok (s1, m1) =>
+    -- every visit adds at least one depth unit; the cap only matters when the limit is not clamped
+    cycle fam edges budget (min (limit + (budget.getD 0) + 3) 5000) 0 s1 m1
 
 /-- chain of `n` nested `super()` calls: the block, then `n` times super -/
 def predictSuper (n limit : Nat) : Pred :=
